@@ -247,39 +247,7 @@ func checkC08(p *Prog, r *Result, tier string) {
 		}
 	}
 
-	// ---- MIR
-	typeNames := make([]string, 0, len(usageFields))
-	for tn := range usageFields {
-		typeNames = append(typeNames, tn)
-	}
-	sort.Strings(typeNames)
-	for _, tn := range typeNames {
-		var add, sub *FuncNode
-		for _, pre := range []string{cpumemTypes + ".(*" + tn + ").", cpumemTypes + "." + tn + "."} {
-			if f := p.Fn(pre + "Add"); f != nil {
-				add = f
-			}
-			if f := p.Fn(pre + "Sub"); f != nil {
-				sub = f
-			}
-		}
-		if add == nil || sub == nil {
-			r.undecided("MIR", tn+" / Add and Sub exist", "", "method pair not found")
-			continue
-		}
-		ao, so := updateOps(p, add), updateOps(p, sub)
-		for _, f := range usageFields[tn] {
-			name := f
-			if name == "" {
-				name = "(entries)"
-			}
-			key := fmt.Sprintf("%s.%s / Add adds, Sub subtracts", tn, name)
-			okA := len(ao[f]) == 1 && ao[f]["+"]
-			okS := len(so[f]) == 1 && so[f]["-"]
-			r.check(okA && okS, "MIR", key, p.pos(add.Decl), "Add: +, Sub: -",
-				fmt.Sprintf("Add updates it with {%s}, Sub with {%s}: the two are not inverse on this field for every operand (wrong sign, or an update that is skipped under a condition), so a delta lacks entries and release/rollback does not restore the usage", opsStr(ao[f]), opsStr(so[f])))
-		}
-	}
+	checkMirror(p, r)
 
 	// ---- RB
 	isSet := func(f *types.Func) bool { return strings.HasSuffix(objName(f), ".SetNodeResourceUsage") }
@@ -519,4 +487,42 @@ func methodCallOn(fn *FuncNode, st ast.Stmt) (string, types.Object) {
 		return "", nil
 	}
 	return sel.Sel.Name, fn.objOf(c.Args[0])
+}
+
+// checkMirror: MIR rule (used by C08 and C10)
+func checkMirror(p *Prog, r *Result) {
+	// ---- MIR
+	typeNames := make([]string, 0, len(usageFields))
+	for tn := range usageFields {
+		typeNames = append(typeNames, tn)
+	}
+	sort.Strings(typeNames)
+	for _, tn := range typeNames {
+		var add, sub *FuncNode
+		for _, pre := range []string{cpumemTypes + ".(*" + tn + ").", cpumemTypes + "." + tn + "."} {
+			if f := p.Fn(pre + "Add"); f != nil {
+				add = f
+			}
+			if f := p.Fn(pre + "Sub"); f != nil {
+				sub = f
+			}
+		}
+		if add == nil || sub == nil {
+			r.undecided("MIR", tn+" / Add and Sub exist", "", "method pair not found")
+			continue
+		}
+		ao, so := updateOps(p, add), updateOps(p, sub)
+		for _, f := range usageFields[tn] {
+			name := f
+			if name == "" {
+				name = "(entries)"
+			}
+			key := fmt.Sprintf("%s.%s / Add adds, Sub subtracts", tn, name)
+			okA := len(ao[f]) == 1 && ao[f]["+"]
+			okS := len(so[f]) == 1 && so[f]["-"]
+			r.check(okA && okS, "MIR", key, p.pos(add.Decl), "Add: +, Sub: -",
+				fmt.Sprintf("Add updates it with {%s}, Sub with {%s}: the two are not inverse on this field for every operand (wrong sign, or an update that is skipped under a condition), so a delta lacks entries and release/rollback does not restore the usage", opsStr(ao[f]), opsStr(so[f])))
+		}
+	}
+
 }
